@@ -242,7 +242,13 @@ func (bucket *Bucket) getOrCreateCollection(name sgbucket.DataStoreNameImpl, orC
 	defer bucket.mutex.Unlock()
 
 	if collection, ok := bucket.collections[name]; ok {
-		return collection, nil
+		// The cache is per handle: another handle of the bucket may have dropped (and re-created) the
+		// collection since. Only trust the cached object while its row is still there.
+		id, err := bucket._getCollectionID(name.Scope, name.Collection)
+		if (err == nil && id == collection.id) || (err != nil && err != sql.ErrNoRows) {
+			return collection, nil
+		}
+		delete(bucket.collections, name)
 	}
 
 	id, err := bucket._getCollectionID(name.Scope, name.Collection)
